@@ -5,8 +5,9 @@ plus a concrete boolean mask `S` of *stored* entries, so that `.data/.indices/
 .indptr/.nnz` can be answered as SciPy answers them.  Value-dependent pruning of
 zeros happens exactly where SciPy prunes (sparse +/-, construction from a dense
 array, LIL assignment of 0); for a symbolic entry that asks `entry != 0`, which
-forks the path.  Everything else (products, scaling, slicing, stacking,
-transposition, COO/CSR construction) is structural, as in SciPy.
+forks the path.  Sparse @ sparse also drops numerically zero results (csr_matmat does).
+Everything else (scaling, slicing, stacking, transposition, COO/CSR construction) is
+structural, as in SciPy.
 
 Deviations from SciPy (assumed harmless, conformance-tested in rverif/conformance.py):
   * column indices inside a row are always sorted and duplicates are summed at once;
@@ -415,6 +416,10 @@ class ShimCSR:
             else:
                 A = a @ b
             S = (self.S.astype(int) @ other.S.astype(int)) > 0
+            # SciPy's csr_matmat stores an entry only if the accumulated sum is non-zero
+            for i, j in zip(*np.nonzero(S)):
+                if not _nonzero(A[i, j]):
+                    S[i, j] = False
             return ShimCSR(A, S, self.format)
         if _is_scipy(other):
             return self.__matmul__(ShimCSR.build(other))
